@@ -6,7 +6,7 @@
    followed by Print Assumptions. *)
 From SC Require Import Lib.Prelude Lib.Int Lib.Host Model.Math Model.Fungible Model.FungibleObs
   Proofs.FungibleBasics Proofs.FungibleExec Proofs.FungibleAllow Proofs.FungibleInv Proofs.FungibleObsFacts
-  Run.C01 Proofs.C01Monitor Proofs.C01Final.
+  Proofs.FungibleVotes Run.C01 Proofs.C01Monitor Proofs.C01Final.
 
 (* Base::update preserves: no negative balance, total_supply = sum of all stored balances,
    0 <= total_supply <= i128::MAX. *)
@@ -105,6 +105,16 @@ Theorem C01_vault_shares_exactly : forall c s, wf_cfg c = true -> state_inv s ->
 Proof. exact vault_shares_exactly. Qed.
 Print Assumptions C01_vault_shares_exactly.
 
+(* FungibleVotes flavour: after any call sequence the voting units kept by the votes module equal the
+   token balances and the latest total-supply checkpoint equals total_supply (so the checked
+   subtraction of voting units and the total-supply checkpoint arithmetic of transfer_voting_units
+   cannot fail after a successful Base operation). *)
+Theorem C01_votes_units_mirror_balances : forall c start cs, wf_cfg c = true -> c_flav c = FVotes ->
+  let s := run c (init start) cs in
+  (forall a, getd (units s) a = balance (tk s) a) /\ tsvotes s = supply (tk s).
+Proof. exact votes_units_mirror_balances. Qed.
+Print Assumptions C01_votes_units_mirror_balances.
+
 (* Every successful call of every flavour emits at most one of the named events and changes
    balances and supply by exactly the movement that event describes (no event: no change). *)
 Theorem C01_step_moves_as_events : forall c start cs cl, wf_cfg c = true ->
@@ -184,3 +194,12 @@ Example C01_monitor_rejects_wrong_supply :
      (cl, out, evs, {| o_now := o_now o; o_supply := o_supply o + 1; o_bal := o_bal o;
                        o_allow := o_allow o; o_extra := o_extra o |})) 0 ex_trace) = 1%N.
 Proof. vm_compute. reflexivity. Qed.
+(* (5) persistence: a balance that lapses while time passes (Advance) although no call touched it *)
+Example C01_monitor_rejects_balance_lapsing_over_time :
+  c01_monitor (corrupt (fun '(cl, out, evs, o) =>
+     (cl, out, evs, {| o_now := o_now o; o_supply := o_supply o; o_bal := alist_set 2%N 0 (o_bal o);
+                       o_allow := o_allow o; o_extra := o_extra o |})) 8 ex_trace) = 9%N /\
+  c01_monitor (corrupt (fun '(cl, out, evs, o) =>
+     (cl, out, evs, {| o_now := o_now o; o_supply := 0; o_bal := o_bal o;
+                       o_allow := o_allow o; o_extra := o_extra o |})) 8 ex_trace) = 9%N.
+Proof. vm_compute. split; reflexivity. Qed.
